@@ -513,6 +513,9 @@ pub fn gen_world(r: &mut Rng) -> Vec<Tree> {
             22 => {
                 // a late responder: k is challenged, the others connect (the server may be full by then),
                 // then k answers with a foreign or garbage challenge, then with its own
+                if nclients >= 2 && r.chance(2, 3) {
+                    ops.push(l(vec![n(115u8), n(nclients as u64 - 1)]));
+                }
                 ops.push(l(vec![n(103u8), n(k), n(250 * MS)]));
                 ops.push(l(vec![n(150u8), n(k), n(0u8), n(0u8), n(0u8), n(0u8)]));
                 for j in 0..nclients as u64 {
@@ -527,6 +530,11 @@ pub fn gen_world(r: &mut Rng) -> Vec<Tree> {
                 }
                 ops.push(l(vec![n(116u8)]));
                 ops.push(l(vec![n(155u8), n(k), n(k), n(r.range(0, 300))]));
+                ops.push(l(vec![n(116u8)]));
+                // a slot frees and k's request is seen again: the next handshake reply goes to the same token
+                ops.push(l(vec![n(113u8), n(ids[((k + 1) % nclients as u64) as usize])]));
+                ops.push(l(vec![n(150u8), n(k), n(r.range(0, 2)), n(0u8), n(0u8), n(0u8)]));
+                ops.push(l(vec![n(116u8)]));
             }
             23 => ops.push(l(vec![n(158u8), n(k), n(r.range(0, 300)), b(&r.bytes(300))])),
             27 => {
